@@ -38,7 +38,8 @@ export GOSYM_EVIDENCE_DIR=$S/evidence; mkdir -p $S/evidence
 cd /verif
 out=$(./check $PROP --tier $TIER -repo $S/repo 2>&1)
 rc=$?
-echo "$out" | grep -E "VIOLATION|^  Verif|UNCONFIRMED|INCONCLUSIVE|^OK|KNOWN" | cut -c1-260 | head -12
+echo "$out" | grep -E "VIOLATION|^  Verif|^  [a-z]-|^OK|KNOWN" | cut -c1-260 | head -12
+echo "$out" | grep -E "UNCONFIRMED|INCONCLUSIVE" | cut -c1-260 | head -6
 echo "check exit=$rc"
 rm -rf $S
 mkdir -p /verif/seeded/$ID
